@@ -191,6 +191,21 @@ func (f *flower) flow(v ssa.Value, acc litSet, depth int) (bool, litSet) {
 			default:
 				if cell := f.P.cellOf(addr); cell != nil {
 					merge(f.flowCell(cell, a2, depth+1))
+				} else {
+					// *p = v with p a pointer kept in a field / handed down (found: &violations): the variables p may
+					// point to
+					roots := f.P.ResolveDeep(addr)
+					all := len(roots) > 0
+					for _, r := range roots {
+						if _, isAlloc := r.(*ssa.Alloc); !isAlloc {
+							all = false
+						}
+					}
+					if all {
+						for _, r := range roots {
+							merge(f.flowCell(r.(*ssa.Alloc), a2, depth+1))
+						}
+					}
 				}
 			}
 		case *ssa.Return:
